@@ -52,7 +52,7 @@ const c09Menu = 13
 // VerifC09Requests: two (thorough: three) members of one session issue requests concurrently; every
 // interleaving at lock granularity within the preemption bound: no data race, every request completes.
 func VerifC09Requests() {
-	s := newStepWorld(stepShape{mods: vModVikja | vModOdal, preset: 0})
+	s := newStepWorld(stepShape{mods: vModVikja | vModOdal, preset: 0, noFree: true})
 	k0 := verifnd.Choice(c09Menu)
 	k1 := verifnd.Choice(c09Menu)
 	if k1 < k0 {
@@ -83,7 +83,7 @@ func VerifC09Requests() {
 
 // VerifC09JoinLeave: a join / a departure / a frame tick concurrent with a member's request.
 func VerifC09JoinLeave() {
-	s := newStepWorld(stepShape{mods: vModVikja | vModOdal, preset: 0})
+	s := newStepWorld(stepShape{mods: vModVikja | vModOdal, preset: 0, noFree: true})
 	k := verifnd.Choice(c09Menu - 1)
 	r, _ := s.c09Request(s.a0, s.eOwn, k)
 	req := func() { s.a0.do(r) }
